@@ -26,7 +26,7 @@ package state
 
 // ---------------------------------------------------------------------------------------------------------------
 // ValKindStat / ValidatorsStat (validator.go)
-//@ func (ValKindStat).DeepCopy props C10
+//@ func (ValKindStat).DeepCopy props C10, C08
 //@ panics none
 //@ requires [nonnil] v.onlineStake != nil && v.onlineToken != nil && v.offlineStake != nil && v.offlineToken != nil && v.rewardsResidue != nil && v.rewardsDistributable != nil
 //@ modifies nothing
